@@ -606,6 +606,18 @@ theorem merge_keeps_forms (fc : Char → Char) (std : List Name) (lib : List Lib
   rw [← hcase] at hk
   exact ⟨mc.2.2.2.2.2 f' i hk, mc.2.2.2.2.1 _ _ hk⟩
 
+/-- a rooted library tag is placed directly under the long name of its root (a partner tag) -/
+theorem rooted_placed_under_root (base : Vocab) (fc : Char → Char) (nStd : Nat) (cur : Name) (c r : Str)
+    (rest : List LibEntry) (placed : List Name) (i : Nat)
+    (hr : base.table.get [foldS fc r] = some i) (hi : i < nStd)
+    (h : placeAll base fc nStd cur (([c], some r) :: rest) = .ok placed) :
+    placed.head? = some (base.name i ++ [c]) := by
+  simp only [placeAll, List.length_cons, List.length_nil, Nat.zero_add, bne_self_eq_false,
+    Bool.false_eq_true, ↓reduceIte, hr, hi] at h
+  cases hp : placeAll base fc nStd (base.name i) rest with
+  | error x => simp [hp, Except.map] at h
+  | ok l => simp only [hp, Except.map, Except.ok.injEq] at h; subst h; rfl
+
 /-- **Clashing names under one prefix are refused**: if the placed library has a tag whose folded
 short name equals that of an earlier tag (of the partner, of a previously merged library or of itself),
 `mergeInto` fails with the duplicate error. -/
